@@ -967,6 +967,7 @@ func (ex *Exec) checkPost(fr *Frame, rv []Val, ins *ssa.Return) {
 			}()
 		}
 	}
+	ex.curResults = ex.resultHandles(env)
 	for i, en := range c.Ensures {
 		name := fmt.Sprintf("%03d", i)
 		// postconditions are judged independently of each other (no assume after assert)
@@ -1067,4 +1068,42 @@ func (ex *Exec) goStmt(fr *Frame, x *ssa.Go) {
 			ex.sharedCells[cp.C] = true
 		}
 	}
+}
+
+
+// resultHandles: scalar terms describing the values being returned (integers, booleans, nil-ness of interfaces and
+// pointers, lengths of slices and strings) so that a postcondition can be re-evaluated on the outputs of a real run.
+func (ex *Exec) resultHandles(env *Env) []resTerm {
+	var out []resTerm
+	add := func(i int, v Val) {
+		switch x := v.(type) {
+		case Scalar:
+			if x.T == nil {
+				return
+			}
+			if x.T.S == SBool {
+				out = append(out, resTerm{i, "bool", x.T})
+			} else if x.Typ != nil && isInteger(x.Typ) {
+				out = append(out, resTerm{i, "int", x.T})
+			}
+		case IfaceV:
+			out = append(out, resTerm{i, "nil", ex.ts.Eq(x.Tag, ex.ts.Int(0))})
+		case RefPtr:
+			out = append(out, resTerm{i, "nil", ex.ts.Eq(x.Ref, ex.ts.Int(0))})
+		case SliceV:
+			out = append(out, resTerm{i, "len", x.Len})
+		}
+	}
+	r, ok := env.vars["result"]
+	if !ok {
+		return nil
+	}
+	if tv, isT := r.(TupleV); isT {
+		for i, e := range tv.E {
+			add(i, e)
+		}
+	} else {
+		add(0, r)
+	}
+	return out
 }
